@@ -73,13 +73,15 @@ func (k *KnownFile) match(prop, sig string) *KnownFinding {
 }
 
 type Options struct {
-	Dir      string // /verif
+	Dir      string // /verif (known_findings.json)
+	Out      string // where evidence/ and replays/ are written
 	Seed     uint64
 	Thorough bool
 	Replay   string // path of a replay file to re-execute
 	Workers  int
 	RunsMul  float64 // scale the number of runs (selftests)
 	Quiet    bool
+	Only     int64 // >= 0: execute just this run index with tracing (debugging aid)
 }
 
 func tierName(th bool) string {
@@ -106,6 +108,19 @@ func (sc *Scenario) Main(o Options) int {
 	if o.Replay != "" {
 		return sc.replay(o, known)
 	}
+	if o.Only >= 0 {
+		t := NewGenTape(SubSeed(o.Seed, uint64(o.Only)))
+		v, c := sc.Execute(t, uint64(o.Only), o.Seed, o.Thorough, newStats(), true)
+		for _, l := range c.trace {
+			fmt.Println(l)
+		}
+		fmt.Printf("run %d: draws=%d events=%d hash=%016x\n", o.Only, t.Draws, c.seq, c.h)
+		if v != nil {
+			fmt.Printf("  signature: %s\n  detail: %s\n", v.Sig, v.Detail)
+			return 1
+		}
+		return 0
+	}
 	n := sc.Runs(o.Thorough)
 	if o.RunsMul > 0 {
 		n = int(float64(n) * o.RunsMul)
@@ -115,6 +130,9 @@ func (sc *Scenario) Main(o Options) int {
 	}
 	if o.Workers == 0 {
 		o.Workers = Workers()
+	}
+	if sc.MaxWorkers > 0 && o.Workers > sc.MaxWorkers {
+		o.Workers = sc.MaxWorkers
 	}
 	fmt.Printf("%s tier=%s seed=%d runs=%d workers=%d\n", sc.ID, tierName(o.Thorough), o.Seed, n, o.Workers)
 
@@ -226,7 +244,7 @@ func (sc *Scenario) writeReplay(o Options, f found) string {
 	if rp.Tape == nil {
 		rp.Tape = []uint64{}
 	}
-	dir := filepath.Join(o.Dir, "replays")
+	dir := filepath.Join(o.Out, "replays")
 	os.MkdirAll(dir, 0o755)
 	name := fmt.Sprintf("%s-%d-%d-%08x.json", sc.ID, o.Seed, f.run, uint32(HashStr(f.v.Sig)))
 	path := filepath.Join(dir, name)
@@ -346,7 +364,7 @@ func (sc *Scenario) writeEvidence(o Options, res *Result, violations, knownSeen 
 	if err != nil {
 		return err
 	}
-	dir := filepath.Join(o.Dir, "evidence")
+	dir := filepath.Join(o.Out, "evidence")
 	os.MkdirAll(dir, 0o755)
 	return os.WriteFile(filepath.Join(dir, sc.ID+".json"), b, 0o644)
 }
